@@ -4,6 +4,7 @@ pub mod builder;
 pub mod consensus;
 pub mod dump;
 pub mod treegen;
+pub mod verify;
 pub mod hooks;
 pub mod model;
 pub mod node;
